@@ -6,7 +6,12 @@
 BASE=$(cd "$(dirname "$0")" && pwd)
 REPO=${VERIF_REPO:?set VERIF_REPO to a scratch checkout}
 mkdir -p "$BASE/.work"
+# SHARD / NSHARDS (optional): this run takes every NSHARDS-th change, starting with the SHARD-th; ONLY (optional): a regular
+# expression the directory name has to match
+n=0
 for d in "$BASE"/seeded/S*/; do
+  n=$((n+1)); [ -n "${NSHARDS:-}" ] && [ $((n % NSHARDS)) -ne "${SHARD:-0}" ] && continue
+  [ -n "${ONLY:-}" ] && ! echo "$d" | grep -Eq "$ONLY" && continue
   s=$(basename "$d"); own=$(echo "$s" | sed 's/^S[0-9]*-\(C[0-9]*\)-.*/\1/')
   others=$(python3 -c "import json,sys;m=json.load(open(sys.argv[1]));print(' '.join(x for x in m.get('caught_by_quick_checks',[]) if x!=sys.argv[2]))" "$d/meta.json" $own)
   git -C "$REPO" checkout -q -- . ; git -C "$REPO" clean -fdq ; git -C "$REPO" apply "$d/patch.diff" || { echo "$s PATCH-FAILED"; continue; }
